@@ -371,7 +371,7 @@ Definition ex_defs : list def :=
         {| s_toks := [TBr [TLit 32;TLit 10;TLit 101;TLit 99;TLit 104;TLit 111;TLit 32;TLit 97;TLit 10;TLit 32]];
            s_sep := 10; s_ws := [] |} ] ].
 
-(*  g () { case $x in a) echo "$y/${z}" $((1+(2))) ;; esac; }  as bash lays it out *)
+(*  g () { case $x in a) echo "$y/${z}" $((1+(2))) $(ls $d/'a )') <<< "$(pwd)" ;; esac; }  as bash lays it out *)
 Definition ex_defs2 : list def :=
   [ Func [103] [32;10;32;32;32;32]
       [ {| s_toks := [TLit 99;TLit 97;TLit 115;TLit 101;TLit 32;TVar [120];TLit 32;TLit 105;TLit 110;TLit 32];
@@ -379,7 +379,9 @@ Definition ex_defs2 : list def :=
         {| s_toks := [TLit 97;TLit 41]; s_sep := 10; s_ws := [32;32;32;32] |};
         {| s_toks := [TLit 101;TLit 99;TLit 104;TLit 111;TLit 32;
                       TDqx [TVar [121];TLit 47;TPE [122]];TLit 32;
-                      TArith [TLit 49;TLit 43;TPar [TLit 50]]];
+                      TArith [TLit 49;TLit 43;TPar [TLit 50]];TLit 32;
+                      TSub [TLit 108;TLit 115;TLit 32;TVar [100];TLit 47;TSq [97;32;41]];TLit 32;THs;TLit 32;
+                      TDqx [TSub [TLit 112;TLit 119;TLit 100]]];
            s_sep := 10; s_ws := [32;32;32;32] |};
         {| s_toks := []; s_sep := 59; s_ws := [] |};
         {| s_toks := []; s_sep := 59; s_ws := [10;32;32;32;32] |};
